@@ -308,7 +308,7 @@ fn scenario_inner() -> Vec<Op> {
 }
 
 pub fn run(c: &Ctx) {
-    c.set_rule("(a) matrix: from a fixed mixed scenario (dirs, files with different modes/owners/bytes, link to file, link to dir, dangling link, cwd below root) every call form of the finite alphabet (every trait method incl. builder variants and handles) on every path of the scenario (absolute and cwd-relative; ordered pairs for copy/move/symlink) is executed on a plain Memfs, through Vfs::Memfs(..) and through Memfs::upcast(): identical result (value / error kind) and identical dump-derived tree after every call; every Entry accessor (path, alt, rel, *_buf, file_name, follow(true/false/twice), following, is_*, mode, upcast, clone) of the inner MemfsEntry vs the VfsEntry. (b) the same matrix on the real-filesystem backend: the Stdfs unit struct (trait impl) vs Vfs::Stdfs on twin tmpfs directories, results and std::fs-observed trees equal; plus every program of length 4 (quick) / 5 (thorough) over {open append x2 handles, open write, write x2, flush, drop x2, read} on one file with a tree observation after every step (buffering inside the wrapper would show). (c) the C01 random histories (with persistent write/append handles) executed the three Memfs ways. Non-trivial = call whose result is not an error and not 'false' on at least one path (a mis-routed arm would differ); distinct by (scenario prefix, call).");
+    c.set_rule("(a) matrix: from a fixed mixed scenario (dirs, files with different modes/owners/bytes, link to file, link to dir, dangling link, cwd below root) every call form of the finite alphabet (every trait method incl. builder variants, builders executed after a cwd change, and handles) on every path of the scenario (absolute and cwd-relative; ordered pairs for copy/move/symlink) is executed on a plain Memfs, through Vfs::Memfs(..) and through Memfs::upcast(): identical result (value / error kind) and identical dump-derived tree after every call; every Entry accessor (path, alt, rel, *_buf, file_name, follow(true/false/twice), following, is_*, mode, upcast, clone) of the inner MemfsEntry vs the VfsEntry. (b) the same matrix on the real-filesystem backend: the Stdfs unit struct (trait impl) vs Vfs::Stdfs on twin tmpfs directories, results and std::fs-observed trees equal; plus every program of length 4 (quick) / 5 (thorough) over {open append x2 handles, open write, write x2, flush, drop x2, read} on one file with a tree observation after every step (buffering inside the wrapper would show). (c) the C01 random histories (with persistent write/append handles) executed the three Memfs ways. Non-trivial = call whose result is not an error and not 'false' on at least one path (a mis-routed arm would differ); distinct by (scenario prefix, call).");
     c.assume("Stdfs twin runs use absolute paths inside a sandbox (set_cwd excluded: process-global)");
     let base = scenario();
     let paths = ["/", "/d", "/d/f", "/d/sub", "/d/sub/g", "/exe", "/lf", "/ld", "/dang", "/nope", "f", "sub/g", "..", "../lf", "/d/new", "/new/deep"];
@@ -335,6 +335,24 @@ pub fn run(c: &Ctx) {
         let mut v = base.clone();
         v.push(op);
         cases.push(v);
+    }
+    // builders whose exec() happens after a cwd change: whatever the backend does (bind the path when the
+    // builder is made, or when it runs), the wrapper must do the same
+    for p in ["f", "sub/g", "sub", "..", "/d/f", "", "~x"] {
+        for cwd2 in ["/", "/d/sub", "/nope"] {
+            let late = |o: Op| Op::Late(Box::new(o), cwd2.to_string());
+            for op in [
+                late(Op::ChmodB(p.into(), ChmodOpt { sel: ChmodSel::All(0o700), recursive: false, follow: false })),
+                late(Op::ChownB(p.into(), ChownOpt { uid: Some(5), gid: Some(7), recursive: true, follow: false })),
+                late(Op::CopyB(p.into(), "copied".into(), CopyOpt { mode: CopyMode::None, follow: false })),
+                late(Op::CopyB("/exe".into(), p.into(), CopyOpt { mode: CopyMode::All(0o640), follow: false })),
+            ] {
+                let mut v = base.clone();
+                v.push(op);
+                v.push(Op::Cwd);
+                cases.push(v);
+            }
+        }
     }
     par_for(cases.len() as u64, 16, |i| {
         let ops = &cases[i as usize];
